@@ -11,6 +11,8 @@ HARNESS = ["cmd/zz_verif_c20_test.go"]
 
 URL_CLASS = {"https://nuts.nl": None, "http://nuts.nl": "url-not-https", "https://127.0.0.1": "url-ip", "https://localhost": "url-reserved",
              "https://node.example.com": "url-reserved", "": "url-missing"}
+IAM_ENDPOINTS = ["https://pub-verif.nl:1001/e", "http://pub-verif.nl:1003/e", "https://127.0.0.1:1001/e", "https://[::1]:1001/e", "https://localhost:1001/e",
+                 "https://node.local:1001/e", "https://a.test:1001/e", "https://10.0.0.12:1002/e", "https://example.com:1001/e"]
 RESERVED_TLDS = {"corp", "example", "home", "host", "invalid", "lan", "local", "localdomain", "localhost", "test"}
 RESERVED_L2 = {"example.com", "example.net", "example.org"}
 PRODUCT_SIZE = 2 * 6 * 2 * 3 * 3 * 2 * 2 * 2
@@ -54,7 +56,7 @@ def run(ctx):
     required = ["strict_refuses", "strict_refuses_with_reason", "strict_decision_table", "strict_running", "lenient_accepts", "moved_keys_refused",
                 "cli_secrets_refused", "outbound_https_only", "lenient_follows_http", "tls_off_network_disabled", "refusals_independent",
                 "fact_default_strict", "fact_parse_public_url", "fact_reserved_lists", "fact_moved_keys", "fact_secret_flag_rule",
-                "fact_engine_conditions", "fact_http_client", "fact_iam_strictmode", "fact_client_strict_unconditional", "fact_outbound_inventory", "fact_iam_call_sites", "fact_misc_sites", "fact_filter_and_validator_comparisons", "remote_contexts_exact", "remote_context_prefix_witness", "dummy_any_spelling", "fact_redirect_check_reads_global", "early_client_strict", "iam_endpoints_strict", "iam_endpoint_witness", "fact_engine_order", "fact_secret_flags", "fact_flags_resolved", "fact_redacted_keys"]
+                "fact_engine_conditions", "fact_http_client", "fact_iam_strictmode", "fact_iam_method_inventory", "iam_calls_strict", "fact_client_strict_unconditional", "fact_outbound_inventory", "fact_iam_call_sites", "fact_misc_sites", "fact_filter_and_validator_comparisons", "remote_contexts_exact", "remote_context_prefix_witness", "dummy_any_spelling", "fact_redirect_check_reads_global", "early_client_strict", "iam_endpoints_strict", "iam_endpoint_witness", "fact_engine_order", "fact_secret_flags", "fact_flags_resolved", "fact_redacted_keys"]
     for r in required:
         if not any(t.endswith("Props." + r) for t in thms):
             ctx.oblige("thm-present:" + r, False, "theorem missing or its module does not build")
@@ -96,7 +98,7 @@ def run(ctx):
 
     # ---------- direct property oracle on the implementation's own outputs
     best, viol = {}, 0
-    feats_default = [0]
+    feats_default = [0, 0]
     tags, outcomes = Counter(), Counter()
     distinct = set()
     product_rows = set()
@@ -202,6 +204,18 @@ def run(ctx):
                     violation("strict-accepted:" + (ins[0] if ins else "malformed"), f"strict node started with insecure settings {ins}: {line}", opl)
                 if line.startswith("sys ok"):
                     pr = dict(kv.split("=", 1) for kv in line.split()[2:])
+                    for ent in filter(None, pr.get("iammatrix", "").split(",")):
+                        site, cls = ent.split(":", 1)
+                        cls = [x for x in cls.split("/") if x]
+                        feats_default[1] += len(cls)
+                        for k, r in enumerate(cls):
+                            if k == 0:
+                                continue
+                            if r == "sent":
+                                violation(("outbound-non-https:iam:" if k == 1 else "outbound-to-non-public-host:iam:") + site,
+                                          f"started strict node: IAM client method {site} sent a request to {IAM_ENDPOINTS[k]}", opl)
+                            elif r not in ("refused-endpoint",):
+                                violation("strict-endpoint-check-disabled:iam-site:" + site, f"started strict node: {site} does not refuse {IAM_ENDPOINTS[k]} as an endpoint ({r})", opl)
                     if pr.get("dummy") != "absent":
                         violation("strict-dummy-means-registered", f"started strict node offers the dummy (test-only) means ({pr.get('dummy')}; configured as {op.get('dummyname') or 'not configured'})", opl)
                     if pr.get("remotectx") != "refused":
@@ -227,7 +241,7 @@ def run(ctx):
                         violation("strict-refused-for-other-reason:" + ins[0], f"only insecure setting {ins[0]} but the node says {line}", opl)
             elif not malformed:
                 want = f"sys ok dummy={'registered' if op.get('dummy') else 'absent'} remotectx=attempted clientstrict=false earlyclient=followed iamhttp=sent iamip=sent iamsites=same iamvc=sent"
-                if line != want:
+                if line != want and not (op.get("iammatrix") and line.startswith(want + " iammatrix=") and "refused" not in line):
                     violation("lenient-refused:" + (line.split()[1][:40] if line.startswith("sys refuse") else "probe"), f"lenient node with settings {ins}: {line} (expected {want})", opl)
         elif kind == "do":
             m = re.fullmatch(r"do reqs=\[(.*)\] out=(.*)", line)
@@ -249,6 +263,7 @@ def run(ctx):
         ff = facts.get("registeredFlags", [])
         ctx.oblige("facts:registered-flags=serverConfigFlags()", sorted(ff) == sorted(set(flag_names)),
                    f"only in facts: {sorted(set(ff) - set(flag_names))[:6]}; only in the binary: {sorted(set(flag_names) - set(ff))[:6]}")
+        ctx.oblige("iam-matrix-run", feats_default[1] >= 12 * 9, f"{feats_default[1]} (method, endpoint) calls of the IAM client")
         ctx.oblige("default-strict-rows-run", feats_default[0] >= 8, f"{feats_default[0]} configurations without a strictmode key")
         ctx.oblige("exhaustive:option-product", len(product_rows) == PRODUCT_SIZE, f"{len(product_rows)} of {PRODUCT_SIZE} rows of the option product were run")
 
